@@ -225,6 +225,15 @@ func generate(cfg simkit.RunConfig) *Scenario {
 	if span < 20000 {
 		span = 20000
 	}
+	// rarely: one caller pauses for longer than the idle time-out of a batch
+	// connection (3 minutes), so that the pool is marked idle and recycled while
+	// the next calls arrive
+	if r.Intn(100) < 3 {
+		c := &sc.Callers[r.Intn(len(sc.Callers))]
+		if n := len(c.Calls); n > 1 {
+			c.Calls[1+r.Intn(n-1)].ThinkUs = 181000000 + r.Intn(4000000)
+		}
+	}
 	if fault {
 		if r.Intn(100) < 35 {
 			ev := CloseEv{AtUs: r.Intn(span * 2), Kind: pick(r, "close", "close", "closeaddr"), Store: r.Intn(sc.Stores)}
